@@ -64,6 +64,7 @@ type statEv struct {
 	Err  error
 	Tag  int
 	Client bool // what the event's IsClient() says
+	MD     metadata.MD // InHeader / InTrailer: what the event carried
 }
 
 type statTag struct {
@@ -384,6 +385,13 @@ func (h *statsObs) HandleRPC(ctx context.Context, s stats.RPCStats) {
 	if e, ok := s.(*stats.End); ok {
 		err = e.Error
 	}
+	var evMD metadata.MD
+	switch v := s.(type) {
+	case *stats.InHeader:
+		evMD = v.Header.Copy()
+	case *stats.InTrailer:
+		evMD = v.Trailer.Copy()
+	}
 	n := h.obs.e.NextEv()
 	histMu.Lock()
 	if t == nil {
@@ -393,7 +401,7 @@ func (h *statsObs) HandleRPC(ctx context.Context, s stats.RPCStats) {
 		}
 		t = h.tags[0]
 	}
-	t.Events = append(t.Events, statEv{N: n, Kind: name, Err: err, Tag: t.Tag, Client: s.IsClient()})
+	t.Events = append(t.Events, statEv{N: n, Kind: name, Err: err, Tag: t.Tag, Client: s.IsClient(), MD: evMD})
 	histMu.Unlock()
 }
 
